@@ -317,7 +317,11 @@ func indep(c *Ctx, p *core.Prog, nt *types.Named, name, pos string, s *efx.Summa
 		for src := range srcs {
 			sr := src.Root()
 			if sr == root {
-				continue
+				// storage reached through an immutable-by-policy descriptor (group, curve, modulus) is
+				// shared by every value of the group: a reference into it is foreign storage
+				if root != "P0" || !throughPolicyPointer(nt, src) {
+					continue
+				}
 			}
 			n++
 			if why := policyReason(ft); why != "" {
@@ -452,6 +456,10 @@ func roTargetList(c *Ctx, p *core.Prog) []roTarget {
 		"encrypt/ecies.Encrypt", "encrypt/ecies.Decrypt", "encrypt/ibe.EncryptCCAonG1", "encrypt/ibe.DecryptCCAonG1",
 		"encrypt/ibe.EncryptCCAonG2", "encrypt/ibe.DecryptCCAonG2", "encrypt/ibe.EncryptCPAonG1", "encrypt/ibe.DecryptCPAonG1",
 		"sign/anon.Encrypt", "sign/anon.Decrypt")
+	add("signing with a shared key object does not change it",
+		"(*sign/eddsa.EdDSA).Sign", "(*sign/eddsa.EdDSA).MarshalBinary", "(*sign/dss.DSS).EnoughPartialSig", "(*sign/dss.DSS).Signature",
+		"(*share/vss/pedersen.Aggregator).DealCertified", "(*share/vss/rabin.aggregator).DealCertified", "(*share/vss/rabin.aggregator).EnoughApprovals",
+		"(*share/vss/pedersen.Aggregator).Responses", "(*share/vss/pedersen.Aggregator).MissingResponses")
 	add("participation mask read by several goroutines",
 		"(*sign/bdn.Mask).Mask", "(*sign/bdn.Mask).Len", "(*sign/bdn.Mask).GetBit", "(*sign/bdn.Mask).IndexOfNthEnabled", "(*sign/bdn.Mask).NthEnabledAtIndex",
 		"(*sign/bdn.Mask).Publics", "(*sign/bdn.Mask).Participants", "(*sign/bdn.Mask).CountEnabled", "(*sign/bdn.Mask).CountTotal", "(*sign/bdn.Mask).Clone",
@@ -578,4 +586,57 @@ func chainStr(ch []string) string {
 func isKyberValue(t types.Type) bool {
 	s := types.TypeString(t, nil)
 	return s == core.ModPath+".Point" || s == core.ModPath+".Scalar"
+}
+
+// throughPolicyPointer: the path dereferences a field whose type is immutable
+// by policy (e.g. P0.g*.G*): the storage belongs to the shared descriptor.
+func throughPolicyPointer(nt *types.Named, p efx.Path) bool {
+	sel := p.Sel()
+	for i := 0; i < len(sel); i++ {
+		if sel[i] == '*' {
+			if t := typeAt(nt, sel[:i]); t != nil && policyReason(t) != "" {
+				// the referent itself being the policy object is fine (P.c = P2.c); deeper is shared storage
+				return len(sel) > i+1
+			}
+		}
+	}
+	return false
+}
+
+// EFXGlobals (EFX-GLOBAL): no mutator of any point / scalar type writes
+// package-level state (hidden shared scratch would make operations on
+// unrelated values interfere under concurrency).
+func EFXGlobals(c *Ctx, cfg string, an *efx.Analyzer) {
+	p := c.Prog(cfg)
+	if p == nil {
+		return
+	}
+	for _, it := range c.implTypes(p) {
+		if it.Kind == "xof" {
+			continue
+		}
+		muts := pointMutators
+		if it.Kind == "scalar" {
+			muts = scalarMutators
+		}
+		for _, m := range muts {
+			fn := p.Method(it.Named, m)
+			if fn == nil || len(fn.Blocks) == 0 || fn.Synthetic != "" || !hasReturn(fn) {
+				continue
+			}
+			s := an.Summary(fn)
+			var bad []efx.Path
+			for w := range s.Writes {
+				if efx.IsGlobalRoot(w.Root()) {
+					bad = append(bad, w)
+				}
+			}
+			sort.Slice(bad, func(i, j int) bool { return bad[i] < bad[j] })
+			if len(bad) > 0 {
+				c.R.Bad("EFX-GLOBAL", shortFn(fn), "writes no package-level state", p.FnPos(fn), "may write "+describeWrites(p, s, bad))
+			} else {
+				c.R.Ok("EFX-GLOBAL", shortFn(fn), "writes no package-level state", p.FnPos(fn), "", true)
+			}
+		}
+	}
 }
